@@ -91,10 +91,34 @@ type depScenario struct {
 	Dep      aDep       `json:"dep"`
 	Sets     []aDSet    `json:"sets"`
 	Store    []aObj     `json:"store"`
+	Slices   []aDSlice  `json:"slices,omitempty"` // ObjectSlices of the deployment's namespace
 	NextRV   int64      `json:"next_rv"`
 	NextUID  int64      `json:"next_uid"`
 	Steps    []depStep  `json:"steps"`
 }
+
+// aDSlice: an ObjectSlice "sl<name>". A phase references slices through trailing pseudo objects of kind sliceRefGK
+// (name = number of the slice), as coq/theories/Deployment.v encodes them.
+type aDSlice struct {
+	Name    int     `json:"name"`
+	Objects []aPObj `json:"objects"`
+}
+
+const sliceRefGK = 9
+
+// splitPhase: the real objects and the slice names of a phase of the scenario language.
+func splitPhase(ph aPhase) (objs []aPObj, slices []string) {
+	for _, o := range ph.Objects {
+		if o.GK == sliceRefGK {
+			slices = append(slices, "sl"+strconv.Itoa(o.Name))
+		} else {
+			objs = append(objs, o)
+		}
+	}
+	return objs, slices
+}
+
+func refPObj(name string) aPObj { return aPObj{GK: sliceRefGK, Name: num("sl", name)} }
 
 type depEvent struct {
 	Kind   string   `json:"kind"` // create | update | delete | status | other:...
@@ -180,9 +204,11 @@ func (c *depCtx) template(i int) corev1alpha1.ObjectSetTemplate {
 		if ph.Class {
 			p.Class = "default"
 		}
-		for _, o := range ph.Objects {
+		objs, slices := splitPhase(ph)
+		for _, o := range objs {
 			p.Objects = append(p.Objects, o.concrete())
 		}
+		p.Slices = slices
 		t.Spec.Phases = append(t.Spec.Phases, p)
 	}
 	t.Spec.AvailabilityProbes = scenarioProbes()
@@ -308,9 +334,28 @@ func normalizeAny(v any) any {
 func (c *depCtx) concreteSet(a aDSet) (map[string]any, error) {
 	base := a.aSet
 	base.Prev = nil
+	sliceNames := make([][]string, len(a.Phases))
+	base.Phases = nil
+	for i, ph := range a.Phases {
+		objs, sl := splitPhase(ph)
+		sliceNames[i] = sl
+		base.Phases = append(base.Phases, aPhase{Name: ph.Name, Class: ph.Class, Objects: objs})
+	}
 	m, err := base.concrete(c.scheme)
 	if err != nil {
 		return nil, err
+	}
+	if phs, ok, _ := unstructured.NestedSlice(m, "spec", "phases"); ok {
+		for i := range phs {
+			if pm, ok := phs[i].(map[string]any); ok && i < len(sliceNames) && len(sliceNames[i]) > 0 {
+				var sl []any
+				for _, n := range sliceNames[i] {
+					sl = append(sl, n)
+				}
+				pm["slices"] = sl
+			}
+		}
+		_ = unstructured.SetNestedSlice(m, phs, "spec", "phases")
 	}
 	u := &unstructured.Unstructured{Object: m}
 	u.SetName(c.nameOf(a.Name))
@@ -371,6 +416,18 @@ func (c *depCtx) abstractDSet(m map[string]any) (aDSet, error) {
 	}
 	u := &unstructured.Unstructured{Object: m}
 	s.Name = c.rankOfName(u.GetName())
+	if phs, ok, _ := unstructured.NestedSlice(m, "spec", "phases"); ok {
+		for i := range phs {
+			pm, ok := phs[i].(map[string]any)
+			if !ok || i >= len(s.Phases) {
+				continue
+			}
+			sl, _, _ := unstructured.NestedStringSlice(pm, "slices")
+			for _, n := range sl {
+				s.Phases[i].Objects = append(s.Phases[i].Objects, refPObj(n))
+			}
+		}
+	}
 	s.Prev = []int{}
 	prev, _, _ := unstructured.NestedSlice(m, "spec", "previous")
 	for _, p := range prev {
@@ -618,6 +675,29 @@ func init() {
 				return nil, err
 			}
 			s.RawPut(m, false)
+		}
+		for _, sl := range sc.Slices {
+			kind := "ObjectSlice"
+			if c.cluster {
+				kind = "ClusterObjectSlice"
+			}
+			var objs []corev1alpha1.ObjectSetObject
+			for _, o := range sl.Objects {
+				objs = append(objs, o.concrete())
+			}
+			md := metav1.ObjectMeta{Name: "sl" + strconv.Itoa(sl.Name), Namespace: c.ns, UID: types.UID("u" + strconv.Itoa(9000+sl.Name)),
+				ResourceVersion: "4", Generation: 1, CreationTimestamp: metav1.Unix(1600000000, 0)}
+			var obj runtime.Object = &corev1alpha1.ObjectSlice{ObjectMeta: md, Objects: objs}
+			if c.cluster {
+				obj = &corev1alpha1.ClusterObjectSlice{ObjectMeta: md, Objects: objs}
+			}
+			sm, err := runtime.DefaultUnstructuredConverter.ToUnstructured(obj)
+			if err != nil {
+				return nil, err
+			}
+			sm["apiVersion"] = corev1alpha1.GroupVersion.String()
+			sm["kind"] = kind
+			s.RawPut(sm, false)
 		}
 		dm, err := c.concreteDep(sc.Dep)
 		if err != nil {
